@@ -74,6 +74,53 @@ def strp (s : Str) : Option Rat :=
   | .num q => some q
   | _ => none
 
+def takeSign (s : Str) : Str × Str :=
+  match s with
+  | '+' :: r => (['+'], r)
+  | '-' :: r => (['-'], r)
+  | r => ([], r)
+
+def takeDigits (s : Str) : Str × Str := (s.takeWhile isDigit, s.dropWhile isDigit)
+
+def takeFrac (s : Str) : Str × Str :=
+  match s with
+  | '.' :: r => ('.' :: r.takeWhile isDigit, r.dropWhile isDigit)
+  | r => ([], r)
+
+def takeExp (s : Str) : Str × Str :=
+  match s with
+  | c :: r =>
+    if c == 'e' || c == 'E' then
+      (c :: ((takeSign r).1 ++ (takeSign r).2.takeWhile isDigit), (takeSign r).2.dropWhile isDigit)
+    else ([], s)
+  | [] => ([], [])
+
+/-- the longest prefix of `s` that the SVG number grammar
+    `sign? (digit+ ('.' digit*)? | '.' digit+) (('e'|'E') sign? digit+)?` can be read from, as the code
+    reads it (greedily, one character of decision at a time), and the rest -/
+def scanNumber (s : Str) : Str × Str :=
+  let a := takeSign s
+  let b := takeDigits a.2
+  let c := takeFrac b.2
+  let d := takeExp c.2
+  (a.1 ++ b.1 ++ c.1 ++ d.1, d.2)
+
+def isNumSep (c : Char) : Bool := isWs c || c == ','
+
+/-- `svg_number_list`: numbers separated by whitespace / commas or by the end of the number grammar -/
+def svgNumberList : Nat → Str → Option (List Rat)
+  | 0, _ => none
+  | fuel + 1, s =>
+    let s := s.dropWhile isNumSep
+    if s.isEmpty then some []
+    else
+      let (tok, rest) := scanNumber s
+      -- not the start of a number: the whole remainder is handed to `strp` (which rejects it)
+      let (tok, rest) := if tok.isEmpty then (s, ([] : Str)) else (tok, rest)
+      match strp tok with
+      | none => none
+      | some q => (svgNumberList fuel rest).map (q :: ·)
+
 def strpIsNonfinite (s : Str) : Bool :=
   match parseF32 (trim s) with
   | .nonfinite => true
